@@ -179,6 +179,24 @@ pub fn run(ctx: &Ctx) -> Outcome {
         g.contg = true;
         patterns.extend(g.of_size(4).into_iter().filter(|_| rng.chance(1, 12)));
     }
+    // counted repeats of nullable bodies with larger bounds: every empty iteration leaves one more
+    // branch with the same (pc, ix) behind, the searches themselves are tiny
+    {
+        use crate::ast::{Mode, Node::*};
+        let bx = |n: Node| Box::new(n);
+        let opt = |m: Mode| Repeat(bx(Node::lit("a")), 0, Some(1), m);
+        for n in [16u32, 48, 64, 100, 200] {
+            patterns.push(Concat(vec![Repeat(bx(opt(Mode::Greedy)), 0, Some(n), Mode::Greedy), Look(bx(Empty), false, false)]));
+            patterns.push(Concat(vec![Repeat(bx(opt(Mode::Lazy)), 1, Some(n), Mode::Greedy), Assert(crate::ast::A::WordB)]));
+            patterns.push(Concat(vec![Node::group(Repeat(bx(opt(Mode::Greedy)), n, Some(n), Mode::Greedy)), Repeat(bx(Backref(1)), 0, Some(1), Mode::Greedy)]));
+            patterns.push(Atomic(bx(Repeat(bx(Alt(vec![Node::lit("a"), Empty])), 0, Some(n), Mode::Lazy))));
+        }
+        for (a, b2, c) in [(8u32, 8u32, 1u32), (4, 4, 4), (6, 6, 2)] {
+            let inner = Repeat(bx(opt(Mode::Greedy)), a, Some(a), Mode::Greedy);
+            let mid = Repeat(bx(inner), b2, Some(b2), Mode::Greedy);
+            patterns.push(Concat(vec![Repeat(bx(mid), c, Some(c), Mode::Greedy), Assert(crate::ast::A::WordB)]));
+        }
+    }
     let texts = spaces::texts_mb(ctx.tier.pick(3, 3));
     let acc = par_run(&patterns, false, Some(STEP_CAP), |_, p, acc| {
         if !p.refs_exist() {
